@@ -426,7 +426,8 @@ func (w *l2world) exec(op *sop, stats map[string]int) bool {
 		if w.fltFired || !strings.HasPrefix(key, w.prefix+"/") {
 			return fOK
 		}
-		match := (f.on == "G" && kind == "G") || (f.on == "P" && kind == "P" && !strings.Contains(key, "/merged/"))
+		match := (f.on == "G" && kind == "G") || (f.on == "P" && kind == "P" && !strings.Contains(key, "/merged/")) ||
+			(f.on == "Dn" && kind == "D" && strings.Contains(key, "/node/")) || (f.on == "Dm" && kind == "D" && strings.Contains(key, "/merged/"))
 		if !match {
 			return fOK
 		}
@@ -452,7 +453,8 @@ func (w *l2world) exec(op *sop, stats map[string]int) bool {
 	w.ops.sb.WriteString(opsHead)
 	w.out.sb.Reset()
 	w.out.sb.WriteString(outHead)
-	x := w.fltFired && w.lastFailed
+	x := w.fltFired && w.lastFailed && !strings.HasPrefix(f.on, "D")
+	// (a DELETE fault is part of the model's run of the vacuum: the statement is not left out)
 	skip := 0
 	if x {
 		skip = len(strings.Fields(opText))
@@ -1081,6 +1083,15 @@ func runL2History(g *gen, prof l2profile, nops int, stats map[string]int) (strin
 				}
 			case "commit":
 				op.flt = &l2fault{on: "P", k: g.r.Intn(4)}
+			case "vacuum":
+				// the first DELETE of a node, or of a superseded version, fails: the vacuum reports
+				// an error, the connection and the table stay usable and show the same rows
+				// (node deletions only for single-node trees: the model keeps one node per tree, so with
+				//  small nodes it deletes nodes where the implementation finds them shared)
+				op.flt = &l2fault{on: "Dm", k: 0}
+				if epn == 0 && g.r.Intn(2) == 0 {
+					op.flt = &l2fault{on: "Dn", k: 0}
+				}
 			}
 		}
 		return w.exec(op, stats)
@@ -1181,6 +1192,20 @@ func runL2History(g *gen, prof l2profile, nops int, stats map[string]int) (strin
 				}
 				op.cons = append(op.cons, scon{op: []string{"eq", "lt", "le", "ge", "gt"}[g.r.Intn(5)], v: v})
 			}
+			if g.r.Intn(3) == 0 {
+				// several bounds on the same side, strict and non-strict mixed, at keys that exist:
+				// the scan must honour the tightest one whatever the order they are given in
+				op.cons = nil
+				side := [][]string{{"lt", "le"}, {"gt", "ge"}}[g.r.Intn(2)]
+				for i, nb := 0, 2+g.r.Intn(2); i < nb; i++ {
+					op.cons = append(op.cons, scon{op: side[g.r.Intn(2)], v: key()})
+				}
+				if g.r.Intn(3) == 0 {
+					other := [][]string{{"lt", "le"}, {"gt", "ge"}}[g.r.Intn(2)]
+					op.cons = append(op.cons, scon{op: other[g.r.Intn(2)], v: key()})
+				}
+				stats["sel_same_side_bounds"]++
+			}
 			if g.r.Intn(5) == 0 && !(op.desc && epn > 0) {
 				// (descending scans of multi-level trees may omit rows, finding F-C06-2: a LIMIT
 				// would make the omission impossible to tell from a wrong row)
@@ -1230,6 +1255,10 @@ func runL2History(g *gen, prof l2profile, nops int, stats map[string]int) (strin
 				}
 			}
 		default:
+			do(&sop{kind: "sel", c: c})
+		}
+		if prof.faults && prof.vacuum && !intx[c] && g.r.Intn(7) == 0 {
+			do(&sop{kind: "vacuum", c: c, before: []int64{l2BaseSec + int64(g.r.Intn(9))*10, 4102444800, 4102444800}[g.r.Intn(3)]})
 			do(&sop{kind: "sel", c: c})
 		}
 		if prof.connAttrs && g.r.Intn(5) == 0 {
@@ -1432,7 +1461,7 @@ func runL2(seed int64, n int, dir string, profName string) error {
 		case "tx":
 			prof = l2profile{writers: 1, native: true, monotone: true, tx: true, connAttrs: true}
 		case "faults":
-			prof = l2profile{writers: 1, native: true, monotone: true, tx: g.r.Intn(3) != 0, faults: true}
+			prof = l2profile{writers: 1, native: true, monotone: true, tx: g.r.Intn(3) != 0, faults: true, vacuum: g.r.Intn(2) == 0}
 		case "ro":
 			prof = l2profile{writers: 1 + g.r.Intn(2), roReader: true, changes: true, vacuum: g.r.Intn(2) == 0}
 		case "changes":
